@@ -7,6 +7,16 @@ From Verif Require Import Base.Prelude Model.Merge Proofs.MergeDen.
 From Verif Require Import Model.TreeMerge Model.Rebase Proofs.C08.
 From Coq Require Import Lia Arith.
 
+Lemma wf_parentsb_sound (parents : list (list nat)) :
+  wf_parentsb parents = true -> forall i p, In p (nth i parents []) -> (p < i)%nat.
+Proof.
+  unfold wf_parentsb. rewrite forallb_forall. intros H i p Hp.
+  destruct (Nat.lt_ge_cases i (length parents)) as [Hi|Hi].
+  - specialize (H i). rewrite in_seq in H. specialize (H ltac:(lia)). rewrite forallb_forall in H.
+    apply Nat.ltb_lt. now apply H.
+  - rewrite nth_overflow in Hp by assumption. contradiction.
+Qed.
+
 Section GraphCA.
   Context (parents : list (list nat)).
   Notation n := (length parents).
@@ -208,3 +218,9 @@ Section GraphCA.
     apply strict_ancestors_spec. exists c, p. repeat split; auto. apply Hwf in Hp. lia.
   Qed.
 End GraphCA.
+
+(** A case whose table passes the executable domain check lies in the domain of
+    graph_ca_below / C08_merge_commits_terminates_graph. *)
+Theorem graph_ca_below_checked (parents : list (list nat)) :
+  wf_parentsb parents = true -> ca_below (graph_common_ancestors parents).
+Proof. intros H. apply graph_ca_below. exact (wf_parentsb_sound parents H). Qed.
